@@ -16,7 +16,8 @@ pub fn install_hook() {
             let quiet = QUIET.with(|q| *q.borrow());
             if quiet {
                 let loc = info.location().map(|l| format!("{}:{}", l.file(), l.line())).unwrap_or_else(|| "?".into());
-                LAST_PANIC.with(|p| *p.borrow_mut() = Some(loc));
+                let msg = info.payload().downcast_ref::<&str>().map(|s| s.to_string()).or_else(|| info.payload().downcast_ref::<String>().cloned()).unwrap_or_default();
+                LAST_PANIC.with(|p| *p.borrow_mut() = Some(format!("{loc}|{}", panic_class(&msg))));
             } else {
                 prev(info);
             }
@@ -36,7 +37,23 @@ pub fn guarded<T>(f: impl FnOnce() -> T) -> Result<T, String> {
     }
 }
 
-/// Strip an absolute path down to the part below `src/` so keys are stable across checkouts.
+/// A short class of a panic message (no input-dependent text, no numbers).
+pub fn panic_class(msg: &str) -> String {
+    let m = msg.to_ascii_lowercase();
+    for (needle, class) in [("char boundary", "char-boundary"), ("out of range", "index-range"), ("out of bounds", "index-range"), ("on a `none`", "unwrap-none"),
+        ("on an `err`", "unwrap-err"), ("overflow", "overflow"), ("begin <= end", "slice-order"), ("slice index starts at", "slice-order"), ("divide by zero", "div-zero"), ("verif:", "verif")] {
+        if m.contains(needle) { return class.to_string(); }
+    }
+    let w: Vec<&str> = m.split(|c: char| !c.is_ascii_alphabetic()).filter(|w| !w.is_empty()).take(3).collect();
+    if w.is_empty() { "panic".into() } else { w.join("-") }
+}
+
+/// Stable locus of a panic for finding keys: the source file below `src/` (so keys survive other
+/// checkouts) *without* the line number (so they survive unrelated edits of that file) plus the
+/// class of the panic message. `loc` is what `guarded` returns: "file:line|class".
 pub fn short_loc(loc: &str) -> String {
-    if let Some(i) = loc.rfind("/src/") { loc[i + 1..].to_string() } else { loc.to_string() }
+    let (fl, class) = loc.split_once('|').unwrap_or((loc, ""));
+    let file = fl.rsplit_once(':').map(|(f, _)| f).unwrap_or(fl);
+    let file = if let Some(i) = file.rfind("/src/") { &file[i + 1..] } else { file };
+    if class.is_empty() { file.to_string() } else { format!("{file}#{class}") }
 }
